@@ -361,9 +361,16 @@ def brokerVerdicts (pre : Server) (ws : List String) (core flags : String) : Lis
           let c35 := if success && pd.stage == 1 && live ≥ pre.caps.maximumClients then
               [fail "C35" "F35" s!"connection established although {live} clients are connected and the maximum is {pre.caps.maximumClients}"] else []
           c13a ++ c35
-    | ["bk.tick", "wills", _] =>
-      -- C16: a delayed will must not be published once the session has been resumed (Clean Start 0)
-      io.events.flatMap fun e =>
+    | ["bk.tick", "wills", d] =>
+      -- C16: a delayed will whose delay has elapsed is published — whether or not the session still exists
+      let dt : Int := (d.toNat?.getD 0 : Nat)
+      let due := pre.willDelayed.flatMap fun (cid, m) =>
+        if dt > m.expiry && !m.payload.isEmpty then
+          (publishVerdicts pre io cid m.topic m.payload (min m.qos pre.caps.maximumQos) (aclOk pre cid m.topic true) none [] "F17a").map
+            fun v => if v.startsWith "FAIL[C03|-]" then
+              fail "C16" "-" s!"the delayed will of {toHex cid} fell due but an entitled subscriber did not receive it ({v})" else v
+        else []
+      due ++ io.events.flatMap fun e =>
         if e.startsWith "will(" then
           match parseHex ((e.drop 5).dropEnd 1).toString with
           | some cid =>
@@ -646,7 +653,8 @@ def c25Update (st : BkState) (pre post : Server) (ws : List String) (io : ImplOu
         | none => acc
         | some (_, eff, expR, expI) =>
           if isSubscribe then
-            (st, if expR then vs ++ [fail "C25" "-" s!"c{nd.1}: the retained message {p} (effective expiry {eff} s) was delivered on SUBSCRIBE after the retained store's housekeeping ran later than its expiry"] else vs)
+            -- (the copy a replay creates in the session has been sent with it)
+            ({ st with sent25 := if st.sent25.contains (c.id, p) then st.sent25 else st.sent25 ++ [(c.id, p)] }, if expR then vs ++ [fail "C25" "-" s!"c{nd.1}: the retained message {p} (effective expiry {eff} s) was delivered on SUBSCRIBE after the retained store's housekeeping ran later than its expiry"] else vs)
           else
             let already := st.sent25.contains (c.id, p)
             let v := if !already && expI then
